@@ -518,12 +518,13 @@ def r03_2(ctx):
 class Reg(StandIn):
     """stand-in region with tabulated subset facts; every other observable is adversarial"""
 
-    def __init__(self, name, facts, inv=False, kind="SimpleShape", subshapes=()):
+    def __init__(self, name, facts, inv=False, kind="SimpleShape", subshapes=(), area=-1.0):
         self.name, self.facts, self.inv, self.kind, self.subshapes = name, facts, inv, kind, tuple(subshapes)
         self.jordans = (Obj("curve_of_" + name),)
+        self.area = area
 
     def __invert__(self):
-        return Reg(self.name, self.facts, not self.inv, self.kind, self.subshapes)
+        return Reg(self.name, self.facts, not self.inv, self.kind, self.subshapes, -self.area)
 
     def _subset(self, x):
         """is x a subset of self?  facts: {(sub, sup): bool} on the un-complemented names"""
@@ -548,7 +549,14 @@ class Reg(StandIn):
         return AdvBox()
 
     def __float__(self):
-        return -1.0
+        return float(self.area)
+
+
+# areas that any true subset claim `inner <= outer` is compatible with: an unbounded outer region (negative area by
+# convention) around a bounded one, a much larger bounded outer region, two unbounded regions.  Regions for which the
+# claim is false get the same areas, so that no comparison of areas tells the two apart.
+AREA_MODES = (("unbounded container, bounded operand", -5.0, 3.0), ("large bounded container", 100.0, 3.0),
+              ("both unbounded", -1.0, -10.0))
 
 
 def r03_2b(ctx):
@@ -574,7 +582,7 @@ def r03_2b(ctx):
     for q, owner, other_kind, agg, claim in specs:
         fn = ctx.fn(q)
         wrong, und = [], None
-        for answers in itertools.product((True, False), repeat=3):
+        for (mode, a_outer, a_inner), answers in itertools.product(AREA_MODES, itertools.product((True, False), repeat=3)):
             facts = {}
             names = [f"s{i}" for i in range(3)]
             fixed = "O" if owner == "self" else "S"
@@ -585,29 +593,31 @@ def r03_2b(ctx):
                 else:
                     facts[(n, fixed)] = a
                     facts[(fixed, n)] = not a
-            subs = [Reg(n, facts) for n in names]
+            sub_is_outer = claim == "other <= sub"
+            subs = [Reg(n, facts, area=a_outer if sub_is_outer else a_inner) for n in names]
+            a_fixed = a_inner if sub_is_outer else a_outer
             if owner == "self":
-                S = Reg("S", facts, kind=fn.cls, subshapes=subs)
-                O = Reg("O", facts, kind=other_kind)
+                S = Reg("S", facts, kind=fn.cls, subshapes=subs, area=sum(x.area for x in subs))
+                O = Reg("O", facts, kind=other_kind, area=a_fixed)
             else:
-                S = Reg("S", facts, kind=fn.cls)
-                O = Reg("O", facts, kind=other_kind, subshapes=subs)
+                S = Reg("S", facts, kind=fn.cls, area=a_fixed)
+                O = Reg("O", facts, kind=other_kind, subshapes=subs, area=sum(x.area for x in subs))
             try:
                 got = Runner(ctx, set(), isinstance_hook).call_fn(fn, [S, O])
             except Undecided as ex:
                 und = str(ex)
                 break
             if got is not agg(answers):
-                wrong.append((answers, got))
+                wrong.append((answers, got, mode))
         word = "all" if agg is all else "any"
         label = f"[other is a {other_kind}]"
         if und:
             out.undecided(q, f"{label} not interpretable: {und}", where=fn.where())
         elif wrong:
             out.bad(q, f"{label} containment is not {word}({claim} over the subshapes)", where=fn.where(),
-                    detail=f"{len(wrong)} of 8 cells wrong, e.g. facts {wrong[0][0]} -> {wrong[0][1]!r}")
+                    detail=f"{len(wrong)} of 24 cells wrong, e.g. facts {wrong[0][0]} -> {wrong[0][1]!r} ({wrong[0][2]})")
         else:
-            out.ok(q, f"{label} 8 cells: result == {word}({claim})", where=fn.where())
+            out.ok(q, f"{label} 24 cells (8 fact assignments x 3 area regimes): result == {word}({claim})", where=fn.where())
     return out
 
 
@@ -823,4 +833,12 @@ def r03_5(ctx):
     return o
 
 
-RULES = [r03_1, r03_2, r03_2b, r03_3, r03_4, r03_5]
+def r03_6(ctx):
+    from rules import C17
+    o = C17.r17_3(ctx)
+    o.rule = "R03.6"
+    o.text = ("the boxes used as quick rejects enclose what they stand for: the box of a segment / closed curve / shape contains every point of it, interior extrema of curved pieces included (same analysis as R17.3)")
+    return o
+
+
+RULES = [r03_1, r03_2, r03_2b, r03_3, r03_4, r03_5, r03_6]
